@@ -98,6 +98,27 @@ func NewKeyGen(r *rand.Rand, n int) *KeyGen {
 	return g
 }
 
+// Inflate turns every pool key into a long key (the key, a 0x01 separator, lo..hi bytes of filler), keeping the
+// keys distinct and their relative order unpredictable. With keys of a few KiB a manifest record (which
+// carries the smallest and largest key of each table it adds) regularly spans a 32 KiB journal block.
+func (g *KeyGen) Inflate(r *rand.Rand, lo, hi int) {
+	seen := map[string]bool{}
+	var pool [][]byte
+	for _, k := range g.Pool {
+		n := lo + r.Intn(hi-lo+1)
+		nk := make([]byte, 0, len(k)+1+n)
+		nk = append(append(nk, k...), 1)
+		for j := 0; j < n; j++ {
+			nk = append(nk, 'z')
+		}
+		if !seen[string(nk)] {
+			seen[string(nk)] = true
+			pool = append(pool, nk)
+		}
+	}
+	g.Pool = pool
+}
+
 // Pick returns one pool key (callers must not modify it).
 func (g *KeyGen) Pick(r *rand.Rand) []byte { return g.Pool[r.Intn(len(g.Pool))] }
 
